@@ -52,6 +52,11 @@ struct Traits2 : public momo::DataTraits
 	template<typename Item> static void AccumulateHashCode(size_t& hashCode, const Item&, size_t) { hashCode += 0; }
 };
 
+struct Traits3 : public momo::DataTraits   // another bucket family for the index hash tables
+{
+	typedef momo::HashBucketLimP4<> HashBucket;
+};
+
 static unsigned long strDigest(const std::string& s) { unsigned long h = 7; for (unsigned char ch : s) h = (h * 131 + ch) % 1000003UL; return h; }
 
 template<typename Traits>
@@ -360,9 +365,13 @@ int main()
 		while (pos <= line.size()) { size_t bar = line.find('|', pos); if (bar == std::string::npos) bar = line.size(); parts.push_back(line.substr(pos, bar - pos)); pos = bar + 1; }
 		int traits = 0; { std::istringstream is(parts[0]); std::string x; is >> x >> traits; }
 		std::vector<std::string> ops(parts.begin() + 1, parts.end());
-		std::string out = traits == 0 ? runCase<momo::DataTraits>(ops) : traits == 1 ? runCase<Traits1>(ops) : runCase<Traits2>(ops);
+		std::string out = traits == 0 ? runCase<momo::DataTraits>(ops) : traits == 1 ? runCase<Traits1>(ops) : traits == 2 ? runCase<Traits2>(ops) : runCase<Traits3>(ops);
 		std::puts(out.c_str()); std::fflush(stdout); ++cases;
 	}
-	std::fprintf(stderr, "idx cases=%ld injected_faults=%ld\n", cases, g_faults);
+	// the bucket classes really instantiated for the index hash sets (slow-hash keys: HashBucketOpen8 selects BucketOpen2N2<3, true>)
+	typedef momo::internal::DataIndexes<CL, momo::DataTraits>::UniqueHash::HashSet HS0;
+	typedef momo::internal::DataIndexes<CL, Traits3>::UniqueHash::HashSet HS3;
+	static_assert(!HS0::HashTraits::isFastNothrowHashable, "index keys are slow-hash keys");
+	std::fprintf(stderr, "idx cases=%ld injected_faults=%ld bucket0=%s bucket3=%s\n", cases, g_faults, typeid(HS0::Bucket).name(), typeid(HS3::Bucket).name());
 	return 0;
 }
